@@ -1,9 +1,10 @@
 (* C09 - A feed is selected exactly when it can resolve the statement. Statements only.
    PARTIAL: the full agreement between the importer's matcher and the parser's resolution is refuted (known finding);
    what is proved is the direction the property needs for passed-over feeds, agreement for table-only feeds, and the
-   first-match discipline of the selection over the priority-ordered pool. *)
-Require Import List Bool ZArith.
-From FV Require Import Model.C09 Proofs.C09.
+   first-match discipline of the selection over the priority-ordered pool, and that this order is a permutation of the
+   pool, descending by priority, with ties in pool order. *)
+Require Import List Bool ZArith Permutation Sorted.
+From FV Require Import Model.C09 Proofs.C09 Proofs.C09Order.
 Import ListNotations.
 
 (* the selected feed matches, every feed ranked before it does not; missing-source exactly when no feed matches *)
@@ -15,6 +16,13 @@ Theorem C09_priority : forall pool s,
   /\ (select pool s = None <-> forall f, In f pool -> matcher (sources f) s = false).
 Proof. intros pool s. split; [intros i; apply select_first|apply select_none]. Qed.
 Print Assumptions C09_priority.
+
+(* the order the importer walks the pool in: every feed exactly once, never a lower priority before a higher one, equal
+   priorities in pool order (explicit instances, priority None, first) *)
+Theorem C09_priority_order : forall pool,
+  Permutation (ordered pool) (combine (seq 0 (List.length pool)) pool) /\ StronglySorted before (ordered pool).
+Proof. intros pool. split; [apply ordered_perm|apply ordered_descending_stable]. Qed.
+Print Assumptions C09_priority_order.
 
 (* a feed passed over for lacking a source could not have parsed the statement *)
 Theorem C09_passed_over_cannot_parse : forall S s, matcher S s = false -> resolves S s = false.
